@@ -82,6 +82,7 @@ func verifAssert(bool) {}
 //@ marks #abstract: result == cdWithin(cd, abs(ts), loc(ts), abs(start))
 //@ ensures #day: cd.suffix == "D" ==> result == (civilYear(abs(ts), loc(ts)) == civilYear(abs(start), loc(ts)) && civilMonth(abs(ts), loc(ts)) == civilMonth(abs(start), loc(ts)) && civilDay(abs(ts), loc(ts)) == civilDay(abs(start), loc(ts)))
 //@ ensures #week: cd.suffix == "W" ==> result == (isoKey(abs(ts), loc(ts)) == isoKey(abs(start), loc(start)))
+//@ ensures #year: cd.suffix == "Y" ==> result == (civilYear(abs(ts), loc(ts)) - civilYear(abs(start), loc(start)) <= cd.multiplier)
 //@ ensures #sameMonth: (cd.suffix == "M" && civilYear(abs(ts), loc(ts)) == civilYear(abs(start), loc(start)) && civilMonth(abs(ts), loc(ts)) == civilMonth(abs(start), loc(start))) ==> result
 //@ ensures #earlierMonth: (cd.suffix == "M" && civilYear(abs(ts), loc(ts)) == civilYear(abs(start), loc(start)) && civilMonth(abs(ts), loc(ts)) < civilMonth(abs(start), loc(start))) ==> !result
 //@ ensures #earlierYear: (cd.suffix == "M" && civilYear(abs(ts), loc(ts)) < civilYear(abs(start), loc(start))) ==> !result
@@ -120,6 +121,32 @@ func lemmaWindowWeekUTC(cd *CandleDuration, ts time.Time) {
 //@ requires cd != nil && cd.suffix == "W" && cd.duration == 604800000000000 && cd.multiplier == 1
 // UTC: the zone offset is 0 at every instant
 //@ requires forallint(a, pattern(zoneOffset(a, loc(ts))), zoneOffset(a, loc(ts)) == 0)
+//@ requires 0 - 4611686018427387904 < abs(ts) && abs(ts) < 4611686018427387904
+
+// Yearly candles (windows are blocks of multiplier*365 days counted from the zero time): a block shorter than
+// multiplier*365 days crosses at most multiplier year boundaries. The calendar fact is instantiated explicitly.
+func calendarYearsSpan(y, k int, loc *time.Location) {}
+
+//@ func calendarYearsSpan
+//@ trusted "calendar: k consecutive civil years starting with year y last at least k*365 days (fixed-offset zone)"
+//@ pure
+//@ requires #k: k >= 0
+//@ ensures civilYearStart(y + k, loc) - civilYearStart(y, loc) >= k*31536000000000000
+
+func lemmaWindowYear(cd *CandleDuration, ts time.Time) {
+	start := cd.Truncate(ts)
+	end := cd.Ceil(ts)
+	if ts.Year() > start.Year() {
+		calendarYearsSpan(start.Year()+1, ts.Year()-start.Year()-1, ts.Location())
+	}
+	verifAssert(!start.After(ts))       // #startAtOrBefore
+	verifAssert(end.After(ts))          // #endAfter
+	verifAssert(cd.IsWithin(ts, start)) // #insideOwnWindow
+}
+
+//@ lemma lemmaWindowYear
+//@ props C31
+//@ requires cd != nil && cd.suffix == "Y" && cd.multiplier >= 1 && cd.multiplier <= 1000 && cd.duration == cd.multiplier*31536000000000000
 //@ requires 0 - 4611686018427387904 < abs(ts) && abs(ts) < 4611686018427387904
 
 // The same for a weekly candle in any other zone (zone offsets are at most 14 h either way).
